@@ -12,6 +12,7 @@ pub mod c06;
 pub mod c07;
 pub mod c08;
 pub mod bddutil;
+pub mod wparams;
 pub mod c10;
 pub mod c11;
 pub mod c12;
